@@ -40,6 +40,8 @@ def mol_of(smi):
             # gives every ring atom a defined hydrogen count
             m.kekule()
             m.thiele()
+        else:
+            m.thiele()      # a Kekule spelling is normalised too (the property compares strings "once aromaticity is normalised")
         _M[smi] = m
     return _M[smi]
 
